@@ -237,65 +237,57 @@ fn run_doc(root: &Path, k: usize, ext: &str, text: &str, probes: &[Val], files: 
         }
     };
 
-    // B: refresh rate, through the reloader constructor (same parse + deserialize code)
-    let (_dirb, cfgb, _) = sub("b");
-    let refresh = match catch(|| {
-        with_stderr(&errfile, || {
-            let dummy = log4rs::Logger::new(
-                Config::builder().build(Root::builder().build(log::LevelFilter::Off)).unwrap(),
-            );
-            log4rs::config::VerifReloader::new(&cfgb, Deserializers::default(), dummy.verif_handle())
-                .map(|(_, _, r)| r)
-        })
-    }) {
-        None => Val::L(vec![Val::N(3)]),
-        Some((Err(_), _)) => Val::L(vec![Val::N(2)]),
-        Some((Ok(None), _)) => Val::L(vec![Val::N(0)]),
-        Some((Ok(Some(d)), _)) => Val::L(vec![
-            Val::N(1),
-            Val::N(d.as_secs() as u128),
-            Val::N(d.subsec_nanos() as u128),
-        ]),
+    // B/C: refresh rate, strict path and typed lossy errors, in one further scratch directory.
+    // YAML / JSON: the serde front-ends are available to the harness, so RawConfig is parsed directly
+    // (RawConfig::refresh_rate, create_raw_config, appenders_lossy + build_lossy).  TOML: the `toml` crate is
+    // not a dependency of the harness; the reloader constructor (same parse + deserialize code as
+    // load_config_file) yields the refresh rate, and there is no public strict entry point.
+    let (_dirb, cfgb, textb) = sub("b");
+    let enc_refresh = |r: Option<std::time::Duration>| match r {
+        None => Val::L(vec![Val::N(0)]),
+        Some(d) => Val::L(vec![Val::N(1), Val::N(d.as_secs() as u128), Val::N(d.subsec_nanos() as u128)]),
     };
-
-    // C: strict path and typed lossy errors (YAML / JSON only: serde front-ends available to the harness)
-    let (_dirc, _, textc) = sub("c");
-    let strict = match catch(|| {
-        with_stderr(&errfile, || match parse_raw(ext, &textc) {
-            None => 3u128,
-            Some(Err(())) => 0,
-            Some(Ok(raw)) => match log4rs::config::create_raw_config(raw) {
-                Ok(logger) => {
-                    drop(logger);
-                    1
-                }
-                Err(_) => 0,
-            },
-        })
-    }) {
-        None => 2,
-        Some((s, _)) => s,
-    };
-    let (_dird, _, textd) = sub("d");
-    let lossy2 = match catch(|| {
-        with_stderr(&errfile, || match parse_raw(ext, &textd) {
-            None => None,
-            Some(Err(())) => Some(None),
+    let (refresh, strict, lossy2) = match catch(|| {
+        with_stderr(&errfile, || match parse_raw(ext, &textb) {
+            None => {
+                let dummy = log4rs::Logger::new(
+                    Config::builder().build(Root::builder().build(log::LevelFilter::Off)).unwrap(),
+                );
+                let r = match log4rs::config::VerifReloader::new(&cfgb, Deserializers::default(), dummy.verif_handle()) {
+                    Ok((_, _, r)) => enc_refresh(r),
+                    Err(_) => Val::L(vec![Val::N(2)]),
+                };
+                (r, 3u128, None)
+            }
+            Some(Err(())) => (Val::L(vec![Val::N(2)]), 0, Some(None)),
             Some(Ok(raw)) => {
+                let r = enc_refresh(raw.refresh_rate());
                 let (apps, mut errs) = raw.appenders_lossy(&Deserializers::default());
                 errs.handle();
-                let (_cfg, berrs) = Config::builder()
+                let (cfg, berrs) = Config::builder()
                     .appenders(apps)
                     .loggers(raw.loggers())
                     .build_lossy(raw.root());
-                Some(Some(enc_build_errors(berrs.errors())))
+                drop(cfg);
+                let be = enc_build_errors(berrs.errors());
+                let strict = match log4rs::config::create_raw_config(raw) {
+                    Ok(logger) => {
+                        drop(logger);
+                        1
+                    }
+                    Err(_) => 0,
+                };
+                (r, strict, Some(Some(be)))
             }
         })
     }) {
-        None => Val::L(vec![Val::N(2)]),
-        Some((None, _)) => Val::L(vec![]),
-        Some((Some(None), _)) => Val::L(vec![Val::N(0), Val::N(0), Val::L(vec![])]),
-        Some((Some(Some(be)), bytes)) => Val::L(vec![Val::N(1), Val::N(count_reports(&bytes)), be]),
+        None => (Val::L(vec![Val::N(3)]), 2, Val::L(vec![Val::N(2)])),
+        Some(((r, st, None), _)) => (r, st, Val::L(vec![])),
+        Some(((r, st, Some(None)), _)) => (r, st, Val::L(vec![Val::N(0), Val::N(0), Val::L(vec![])])),
+        Some(((r, st, Some(Some(be))), bytes)) => {
+            // create_raw_config does not report to stderr: the `log4rs: ` lines are those of errs.handle()
+            (r, st, Val::L(vec![Val::N(1), Val::N(count_reports(&bytes)), be]))
+        }
     };
 
     Val::L(vec![Val::N(status), acc, Val::N(nerr), beh, refresh, Val::N(strict), lossy2])
